@@ -22,7 +22,17 @@ RULE = (
 
 
 def rx_for(mods):
-    return "(" + "|".join(re.escape(m) for m in mods) + ")$"
+    """a regex matching exactly `mods`, in one of four spellings (grouped / ungrouped alternation, \\Z, explicit ^) chosen
+    from the names themselves, so that case generation stays a function of the seeded choices made so far"""
+    alts = [re.escape(m) for m in mods]
+    k = sum(len(m) for m in mods) % 4
+    if k == 0:
+        return "(" + "|".join(alts) + ")$"
+    if k == 1:
+        return "|".join(a + "$" for a in alts)
+    if k == 2:
+        return "(?:" + "|".join(alts) + r")\Z"
+    return "^(" + "|".join(alts) + ")$"
 
 
 def make_case(rng, nodes, imps, pool=None, force_kinds=None):
